@@ -110,6 +110,13 @@ def run(ctx):
     quick = ctx.tier == "quick"
     rng = random.Random(ctx.seed * 7919 + 18)
     tasks = sp.gen_tasks(ctx, rng, 8 if quick else 40, 3 if quick else 8, make_groups, 7, ("fail",), ("mom", "wd", "lr", "b1", "freq"))
+    # a scheduler over two groups that share one learning-rate table (lr moves only, for one group or for both at once)
+    def shared_lr(r):
+        gs = [family.draw_group(r, r.choice(["m2x2", "v2x3", "s0v"])), family.draw_group(r, r.choice(["m2x2", "v2x3"]))]
+        gs[1]["lr"], gs[1]["lr0"], gs[1]["shared_hyper"] = list(gs[0]["lr"]), gs[0]["lr0"], True
+        gs[1]["wd"], gs[1]["wd0"] = list(gs[0]["wd"]), gs[0]["wd0"]
+        return gs
+    tasks += sp.gen_tasks(ctx, rng, 3 if quick else 12, 4 if quick else 10, shared_lr, 7, (), ("lr",))
     # checkpoints taken from and loaded into the LIVE optimizers (rollback / reload between compiled steps); behaviours that
     # really roll back (Save, then a step, then Load, then a step) are preferred
     cand = sp.gen_tasks(ctx, rng, 8 if quick else 30, 30 if quick else 60, make_groups, 8, (), ("wd", "lr", "freq"), ckpt=True)
